@@ -7,8 +7,43 @@ MC = dict(names=2, ops='c_OpsC12', phasesets='c_PhaseSets12', depth='Depth6', de
           props=['RepresentationKeepsContents'])
 
 
+def view_paths(rng, n):
+    """Directed schedules for the live-view clause: obtain a phase view, change the representation, then write /
+    read through the old view and through the parent."""
+    from harness.drivers import streams as ds
+    out = []
+    for _ in range(n):
+        x = rng.choice(['a', 'b', 'c'])
+        phs = sorted(rng.sample(ds.ALLPH, rng.randint(2, 4)))
+        p = rng.choice(phs)
+        ops = [('set_phases', dict(x=x, phs=phs)), ('set_flow', dict(x=x, p=p, c=1, v=8)),
+               ('view_read', dict(x=x, p=p)), ('view_write', dict(x=x, p=p, c=2, v=4))]
+        kind = rng.choice(['same', 'more', 'other', 'save_restore', 'get_eq', 'reduce'])
+        phs2 = phs
+        if kind == 'same':
+            ops.append(('set_phases', dict(x=x, phs=phs)))
+        elif kind == 'more':
+            phs2 = sorted(set(phs) | {rng.choice(ds.ALLPH)})
+            ops.append(('set_phases', dict(x=x, phs=phs2)))
+        elif kind == 'other':
+            phs2 = sorted(set(rng.sample(ds.ALLPH, rng.randint(2, 4))) | {p})
+            ops.append(('set_phases', dict(x=x, phs=phs2)))
+        elif kind == 'save_restore':
+            ops += [('save', dict(x=x)), ('set_flow', dict(x=x, p=p, c=1, v=12)), ('restore', dict(x=x))]
+        elif kind == 'get_eq':
+            ops.append(('get_eq', dict(x=x, kind=rng.choice(['vle', 'lle', 'sle']))))
+        else:
+            q = rng.choice(phs)
+            ops += [('set_flow', dict(x=x, p=q, c=2, v=4)), ('reduce_phases', dict(x=x))]
+        ops += [('view_read', dict(x=x, p=p)), ('set_flow', dict(x=x, p=p, c=1, v=16)), ('view_read', dict(x=x, p=p)),
+                ('view_write', dict(x=x, p=p, c=2, v=20)), ('view_read', dict(x=x, p=p)), ('view_set_T', dict(x=x, p=p, T=350)),
+                ('view_read', dict(x=x, p=p))]
+        out.append([dict(op=o, a=a) for o, a in ops])
+    return out
+
+
 def run(ctx):
-    return sc.run(ctx, 'C12', MC, FOCUS, SHAPING)
+    return sc.run(ctx, 'C12', MC, FOCUS, SHAPING, extra_paths=view_paths)
 
 
 def replay(ctx, data):
